@@ -134,8 +134,10 @@ def queue_config_job():
 
 
 # ---------------------------------------------------------------------------------------------- L3
-def prefix_job(N, r, seed, kpre, S, want=WANT, real_queue=False):
-    cfg = {'N': N, 'r': r, 'seed': seed, 'kpre': kpre, 'nsym': S + 2, 'script': [('iter', kpre + S + 1)], 'overrides': ['before', 'iter', 'stop'],
+def prefix_job(N, r, seed, kpre, S, want=WANT, real_queue=False, resume=False):
+    # resume: Solve() runs into the budget after kpre trials, then the search is continued by hand
+    script = [('solve',), ('iter', S + 1)] if resume else [('iter', kpre + S + 1)]
+    cfg = {'N': N, 'r': r, 'seed': seed, 'kpre': kpre, 'nsym': S + 2, 'script': script, 'iters_limit': kpre if resume else 10 ** 6, 'overrides': ['before', 'iter', 'stop'],
            'real_queue': real_queue, 'sibling': 'other'}
     return agp.scenario_job(cfg, want, label='reachable prefix: N=%d r=%s f#%d, %d concrete + %d symbolic values%s'
                             % (N, r, seed, kpre, S + 1, ' (real DEPQ)' if real_queue else ''))
@@ -191,6 +193,8 @@ def main():
             for kpre in ((2, 3, 4) if quick else (2, 3, 4, 5, 6)):
                 jobs.append((prefix_job, (1, r, sd, kpre, 1)))
     jobs.append((prefix_job, (1, 2.5, seeds[0], 2, 1, WANT, True)))      # the real DEPQ end to end
+    for sd in seeds[:3]:
+        jobs.append((prefix_job, (1, 2.5, sd, 3, 1, WANT, False, True)))     # Solve stops on the budget, the search is resumed by DoGlobalIteration
     if not quick:
         for sd in seeds[:3]:
             jobs.append((prefix_job, (1, 2.5, sd, 3, 2)))
